@@ -14,8 +14,9 @@
 /* ---- exceptions (DESIGN 3.3): code recorded in ghost, control returns ---- */
 extern int verif_exc;
 #define VERIF_THROW(code) do { verif_exc = (code); return VERIF_DEFAULT; } while (0)
-/* after a call to a callee that may throw, the C++ caller does not continue */
-#define VERIF_PROPAGATE() __CPROVER_assume(verif_exc == 0)
+/* after a call to a callee that may throw, the C++ caller does not continue:
+ * the extractor wraps such calls (tools/vlib/unit.py wrap_throwing_calls) */
+#define VERIF_CALLX(e) ({ __typeof__(e) verif_r_ = (e); if (verif_exc) return VERIF_DEFAULT; verif_r_; })
 
 /* ---- release-build semantics of the sanity macros (defines.h:88-89,183) --- */
 #ifdef VERIF_DEVELOPMENT_CODE
